@@ -110,10 +110,10 @@ theorem flowPred_eq {α : Type} (name : String) (ss ds : Strata) (f : Flow α) :
     (f.name == name
       && (match f.src with | none => true | some c => c.hasStrata ss)
       && (match f.dst with | none => true | some c => c.hasStrata ds))
-    = decide (flowSelected name ss ds f) := by
+    = decide (flowSelectedD name ss ds f) := by
   rw [Bool.eq_iff_iff, decide_eq_true_iff]
   cases hs : f.src <;> cases hd : f.dst <;>
-    simp [flowSelected, endSelected, hs, hd, hasStrata_eq, and_assoc]
+    simp [flowSelectedD, endSelected, hs, hd, hasStrata_eq, and_assoc]
 
 /-! ### midpoints -/
 
@@ -387,7 +387,7 @@ theorem sumCols_flow_getD (m : Model α) (rows : List (List α)) (name : String)
     (hi : i < rows.length) :
     (sumCols rows (flowIndices m name ss ds)).getD i 0 = flowOutputAt m name ss ds (rows.getD i []) := by
   rw [sumCols_getD rows _ i hi, flowIndices, flowOutputAt]
-  exact sumSelected_eq m.flows _ (flowSelected name ss ds) (fun f _ => flowPred_eq name ss ds f) _
+  exact sumSelected_eq m.flows _ (flowSelectedD name ss ds) (fun f _ => flowPred_eq name ss ds f) _
 
 theorem evalRequest_flow (m : Model α) (d : RunData α) (done : List (String × List α)) (name : String)
     (ss ds : Strata) (raw : Bool) :
